@@ -18,6 +18,18 @@ C  `seq`    explicit-state search over span sequences (6-span alphabet, depth <=
             the input, (b) the field reached by the single equivalent span, (c) the field reached by
             the first (shortest) history with the same model state.
 
+D  `forms`  deviation lattice around 5 base devices on a thin set of grids: sample dtype / container of the input
+            field (bool ... complex128, list, tuple, str), every scalar spelling of D / length / alpha / beta_2 /
+            beta_3 / gamma (Python int and float, numpy scalars, 0-d arrays; one argument at a time and all at
+            once), positional calls, phi_max, show_progress, retH spellings (output field AND H), amplitude
+            scale 1e-100 ... 1e100 and a large DC offset, noise layouts (shape only), parameter sweeps on ONE
+            write-protected input object, the same argument objects used twice, and the same call repeated
+            after gv was reconfigured.  Same oracle as part A.
+
+Lengths: the operator is recovered from the FULL basis for the short lengths; the long ones (quick: 97, 127, 206 = 2*103,
+4097 = 17*241, 8192; thorough adds 1023 ... 16384) run in *probe* mode: e_k, j*e_k for k in {0, 1, N/2, N-1}, ones,
+random, one-sided fields; the applied response is then read off the response to e_0 (fft(out)/fft(in)).
+
 The sampling rate of the statement is `gv.fs`.  A gv configuration is a *call history* (GVCONF): besides
 gv(sps=, R=) every call form of gv() is enumerated - sps+fs, R+fs with an integer and with a non-integer
 ratio (rounded down / up / half-to-even), fs alone, sps alone, a slot count N in force, and two-call
@@ -48,10 +60,19 @@ NONTRIVIAL = ('cases whose filter differs from the identity (accumulated beta2*L
 # --------------------------------------------------------------------------- tolerances (all justified in notes/C07.md)
 EPS = float(np.finfo(float).eps)
 C_FFT = 64.0      # per stage (fft, multiply, ifft), N <= 256: worst-case bound of two pocketfft passes is < 128 u = 64 eps
+                  # (N > 256: grows with the number of butterfly passes ~ log2 N, see cfft())
 C_PH = 16.0       # phase argument theta = beta*L*w^n/n! is computed by the code with <= 20 roundings (u = eps/2) -> <= 10 eps * |theta|
 LOSS_BAND = 2e-4  # P_out/P_in vs 10^(-alpha*L/10): the code's alpha/4.343 constant (DESIGN 2, 5/C07); valid for sum alpha*L <= 60 dB
 ENERGY_REL = 1e-13  # DM energy: >= 2 * 64 eps (norm preservation of the two FFTs) + summation rounding
 HORIZON = 60.0
+
+
+
+def cfft(N):
+    """rounding constant of one stage for length N: 64 eps up to N = 256 = 2^8, proportional to log2(N) beyond (the
+    worst-case bound of a mixed-radix / Bluestein FFT is linear in the number of passes)"""
+    return C_FFT * max(1.0, math.log2(max(N, 2)) / 8.0)
+
 
 LD = np.longdouble
 PI_LD = LD(4) * np.arctan(LD(1))
@@ -78,6 +99,7 @@ FSCONF = {
     'fs:40G': ([dict(fs=40e9)], 40e9, 40e9),                                   # fs alone, integer multiple of the default R
     'fs:24.5G': ([dict(fs=24.5e9)], 24.5e9, 24e9),                             # fs alone, ratio 24.5 -> sps 24
     'N8:160G': ([dict(sps=16, R=10e9, N=8)], 160e9, 160e9),                    # gv.N/gv.t/gv.w (128 points) in force, signal lengths differ
+    'wl1310:160G': ([dict(sps=16, R=10e9, wavelength=1310e-9)], 160e9, 160e9),   # another carrier: the filter is a baseband filter, unchanged
     # --- two-call histories
     'sps+R,fs:25G': ([dict(sps=16, R=10e9), dict(fs=25e9)], 25e9, 20e9),       # fs alone against the R of the first call
     'R+fs,sps+R:40G': ([dict(R=10e9, fs=25e9), dict(sps=4, R=10e9)], 40e9, 40e9),   # leaving an incommensurate state
@@ -95,6 +117,32 @@ F_ALPHA = [0, 0.2, 0.5]                                            # dB/km
 F_B2 = [0, 7, -7, 25, -25]                                         # ps^2/km
 F_B3 = [0, 0.2, -0.2]                                              # ps^3/km
 
+# extreme-but-legal parameter points (part A, every grid): very short / very long spans, tiny / huge D, alpha*L up to 50 dB
+EXTREME_DEVS = [
+    ('DM', 1e-3), ('DM', -1e-3), ('DM', 1e6), ('DM', -1e6),
+    ('FIBER', 1e-9, 0.2, 25, 0.2),          # 1 micrometre
+    ('FIBER', 1e-6, 0.2, -25, -0.2),        # 1 mm
+    ('FIBER', 1e-6, 0, 0, 0.2),
+    ('FIBER', 1e4, 0.005, -25, 0.2),        # 10 000 km, 50 dB
+    ('FIBER', 1e4, 0.005, 0, 0),            # ... as a pure attenuator
+    ('FIBER', 1e5, 0, 0, -0.2),             # 100 000 km, third order only, negative
+    ('FIBER', 1e5, 0, 7, 0),
+    ('FIBER', 0.5, 100, 0, 0),              # 100 dB/km: 50 dB in half a kilometre
+    ('FIBER', 0.5, 100, 7, -0.2),
+    ('FIBER', 50, 1e-9, 0, 0),              # alpha just above its lower limit 0
+]
+
+# lengths.  FULL: operator recovered from the full basis; PROBE: lengths with large prime factors (97, 127 = 2^7-1, 206 = 2*103),
+# around the block sizes 1024 / 4096 (default nslots) and beyond.
+N_FULL_QUICK = [1, 2, 3, 13, 16, 17, 64, 65]
+N_PROBE_QUICK = [97, 127, 206, 4097, 8192]
+N_FULL_THOROUGH = [5, 31, 32, 33, 97, 127, 128, 129, 206]               # (97, 127, 206: full basis here, probe in quick)
+N_PROBE_THOROUGH = [1023, 1024, 1025, 4095, 4096, 4099, 5000, 16384]    # 4099 is prime, 5000 = 2^3*5^4
+N_FORMS_THOROUGH_EXTRA = [1023]      # a long length that additionally runs on every gv call form (thorough)
+N_LONG = 1000                        # lengths above run on fewer sampling rates and a thinned law list (cost: ~2 ms per library call)
+FS_LONG_QUICK = ['16G', '160G']
+FS_LONG_THOROUGH = ['16G', '160G', '1280G']
+
 # span alphabet of part C (decimal strings: the model adds them exactly as rationals)
 SPANS = [
     ('DM', '300'),
@@ -108,14 +156,20 @@ SPANS = [
 
 def grids(tier):
     """simplest first: by N, layout, then the sps+R configurations before the other call forms"""
-    Ns = [1, 2, 3, 16, 17, 64, 65]
+    Ns = N_FULL_QUICK + N_PROBE_QUICK
     fss = list(FS_BASE_QUICK)
     if tier == 'thorough':
-        Ns += [5, 31, 32, 33, 128, 129]
+        Ns = sorted(set(Ns + N_FULL_THOROUGH + N_PROBE_THOROUGH))
         fss += FS_BASE_THOROUGH
-    Nf = sorted(Ns) if tier == 'thorough' else N_FORMS_QUICK
-    out = [(N, pol, f) for N in sorted(Ns) for pol in (1, 2) for f in fss + (FS_FORMS if N in Nf else [])]
+    Nf = sorted(set(full_lengths(tier)) | set(N_FORMS_THOROUGH_EXTRA)) if tier == 'thorough' else N_FORMS_QUICK
+    flong = FS_LONG_THOROUGH if tier == 'thorough' else FS_LONG_QUICK
+    out = [(N, pol, f) for N in sorted(Ns) for pol in (1, 2) for f in (fss if N <= N_LONG else flong) + (FS_FORMS if N in Nf else [])]
     return out
+
+
+def full_lengths(tier):
+    """lengths whose operator is recovered from the full basis in part A (the others run in probe mode)"""
+    return sorted(set(N_FULL_QUICK + (N_FULL_THOROUGH if tier == 'thorough' else [])))
 
 
 def devices():
@@ -124,7 +178,7 @@ def devices():
         devs.append(('FIBER', L, a, b2, b3))
     # simplest first: identity filters, then by number of active terms
     devs.sort(key=lambda d: (d[0] != 'DM', sum(1 for v in d[2:] if v != 0) if d[0] == 'FIBER' else int(d[1] != 0)))
-    return devs
+    return devs + EXTREME_DEVS
 
 
 # --------------------------------------------------------------------------- reference model
@@ -257,15 +311,16 @@ def check_filter(tag, cls, labels, Xs, outs, fs, b2L, b3L, aL, nstage, thsum, vi
     nrm = norms(Xs)
     Ein = nrm ** 2
     Eout = (np.abs(outs) ** 2).sum(axis=-1)
-    tolfac = C_FFT * nstage + C_PH * thsum
+    tolfac = cfft(N) * nstage + C_PH * thsum
     live = Ein > 0
     aLf = float(aL)
     if aLf == 0:
         if is_dm_only:
+            etol = ENERGY_REL * nstage * cfft(N) / C_FFT
             rel = np.where(live, np.abs(Eout / np.where(live, Ein, 1) - 1), 0.0)
-            if not np.all(rel <= ENERGY_REL * nstage):
-                i, r = [int(v) for v in np.argwhere(~(rel <= ENERGY_REL * nstage))[0]]
-                viol.append((f'DM:energy:{cls}', f'{tag} input {labels[i]} row {r}: E_out/E_in - 1 = {rel[i, r]:.3e} > {ENERGY_REL * nstage:.1e}'))
+            if not np.all(rel <= etol):
+                i, r = [int(v) for v in np.argwhere(~(rel <= etol))[0]]
+                viol.append((f'DM:energy:{cls}', f'{tag} input {labels[i]} row {r}: E_out/E_in - 1 = {rel[i, r]:.3e} > {etol:.1e}'))
     else:
         expect = 10.0 ** (-aLf / 10.0)
         rel = np.where(live, np.abs(Eout / np.where(live, Ein, 1) / expect - 1), 0.0)
@@ -308,11 +363,17 @@ def rand_field(N, pol, seed, salt):
     return rng.standard_normal(shape) + 1j * rng.standard_normal(shape)
 
 
-def full_inputs(N, pol, seed):
-    """returns (labels, arrays): full basis first (index k -> e_k, N+k -> j*e_k), then extras"""
+def basis_indices(N, full):
+    """full: every k; probe: first, second, middle, last"""
+    return list(range(N)) if full else sorted({0, 1 % N, N // 2, N - 1})
+
+
+def full_inputs(N, pol, seed, K=None):
+    """returns (labels, arrays): the basis first (position i -> e_K[i], len(K)+i -> j*e_K[i]; K = every index by default), then extras"""
+    K = list(range(N)) if K is None else K
     labels, arrs = [], []
     for c, nm in ((1.0, 'e'), (1j, 'j*e')):
-        for k in range(N):
+        for k in K:
             labels.append(f'{nm}{k}')
             arrs.append(basis_input(N, pol, k, c))
     labels.append('ones')
@@ -345,11 +406,12 @@ def superpos_inputs(N, pol):
 
 def short_inputs(N, pol, seed):
     """inputs of parts B and C: the full basis for N <= 17, six fields otherwise"""
-    labels, arrs = full_inputs(N, pol, seed)
     if N <= 17:
-        return labels, arrs
-    keep = [0, 1, N - 1, N + N // 2, 2 * N, 2 * N + 1]     # e0, e1, e_{N-1}, j*e_{N/2}, ones, rand
-    return [labels[i] for i in keep], [arrs[i] for i in keep]
+        return full_inputs(N, pol, seed)
+    labels = ['e0', 'e1', f'e{N - 1}', f'j*e{N // 2}', 'ones', 'rand']
+    arrs = [basis_input(N, pol, 0, 1.0), basis_input(N, pol, 1, 1.0), basis_input(N, pol, N - 1, 1.0), basis_input(N, pol, N // 2, 1j),
+            np.ones((N,) if pol == 1 else (2, N), complex), rand_field(N, pol, seed, 0)]
+    return labels, arrs
 
 
 def digest(arrs):
@@ -360,8 +422,35 @@ def digest(arrs):
 
 
 # --------------------------------------------------------------------------- part A: basis enumeration of one device
+def noisy_check(tag, cls, name, dev, Xn, Nn, fs, b2L, b3L, aL, th, viol, call=None):
+    """a field that carries noise: the signal part obeys the same oracle (or the total field does); noise: shape only.
+    Returns the output signal (or None)."""
+    on = (call or (lambda sig: apply_dev(dev, sig)))(mk(Xn, Nn))
+    lv = layout_viol(name, on, Xn)
+    if lv:
+        viol += [(k, f'{tag} noisy input: {m}') for k, m in lv]
+        return None
+    if on.noise is not None and np.shape(on.noise) != Xn.shape:
+        viol.append((f'noise-shape:{name}', f'{tag}: noise of shape {Xn.shape} came back with shape {np.shape(on.noise)}'))
+    Xc, Nc = np.asarray(Xn).astype(complex), np.asarray(Nn).astype(complex)
+    v2 = []
+    check_filter(tag, cls, ['noisy(signal part)'], rows3(Xc[None]), rows3(on.signal[None]), fs, b2L, b3L, aL, 1, th, v2, name == 'DM')
+    if v2 and on.noise is not None and np.shape(on.noise) == Xn.shape:
+        v3 = []
+        check_filter(tag, cls, ['noisy(total field)'], rows3((Xc + Nc)[None]), rows3((on.signal + on.noise)[None]), fs, b2L, b3L, aL, 1, th, v3, name == 'DM')
+        if not v3:
+            v2 = []
+    viol += [(k.replace(':filter:', ':filter-noisy:'), m) for k, m in v2]
+    return on.signal
+
+
+def response_from_delta(out_row, in_row):
+    """frequency response actually applied to one row, read off the response to a (shifted, scaled) unit impulse"""
+    return np.fft.fft(out_row) / np.fft.fft(in_row)
+
+
 def case_basis(case):
-    (N, pol, fskey), dev, seed = case
+    (N, pol, fskey), dev, seed, full = case
     fs = setup(fskey)
     facts = gv_facts()
     name = dev[0]
@@ -370,9 +459,11 @@ def case_basis(case):
     b2L, b3L, aL = dev_triple(dev)
     th = theta_max(fs, b2L, b3L)
     viol = []
-    labels, arrs = full_inputs(N, pol, seed)
+    K = basis_indices(N, full)
+    nK = len(K)
+    labels, arrs = full_inputs(N, pol, seed, K)
     meta = []
-    if N == 16:
+    if N == 16 and full:
         l2, a2, meta = superpos_inputs(N, pol)
         labels, arrs = labels + l2, arrs + a2
     nfull = len(labels) - len(meta)
@@ -386,29 +477,34 @@ def case_basis(case):
     Xs = rows3(np.array(arrs))
     Os = rows3(np.array(outs))
     worst = check_filter(tag, cls, labels, Xs, Os, fs, b2L, b3L, aL, 1, th, viol, name == 'DM')
-    tol1 = EPS * (C_FFT + C_PH * th + 4)
+    tol1 = EPS * (cfft(N) + C_PH * th + 4)
 
     # complex-linearity on the basis: response to j*e_k == j * response to e_k
-    d = np.abs(Os[N:2 * N] - 1j * Os[:N]).max()
+    d = np.abs(Os[nK:2 * nK] - 1j * Os[:nK]).max()
     if not d <= 2 * tol1 * abs(CY):
         viol.append((f'linearity:{name}:j*e_k', f'{tag}: response to j*e_k differs from j*response to e_k by {d:.3e}'))
 
-    # the operator, recovered from the basis responses: M[:, k] = response to e_k (x row) ; y row: input CY*e_{k+1}
-    ops = [Os[:N, 0, :].T]
-    if pol == 2:
-        My = np.empty((N, N), complex)
-        for k in range(N):
-            My[:, (k + 1) % N] = Os[k, 1, :] / CY
-        ops.append(My)
-    tolT = 2 * math.sqrt(N) * tol1 + EPS * C_FFT
+    tolT = 2 * math.sqrt(N) * tol1 + EPS * cfft(N)
     Hrec = []
-    for r, M in enumerate(ops):
-        T = np.fft.ifft(np.fft.fft(M, axis=0), axis=1)          # F M F^-1
-        Hd = np.diag(T).copy()
-        off = np.abs(T - np.diag(Hd)).max() if N > 1 else 0.0
-        if not off <= tolT:
-            viol.append((f'LTI:{name}:{cls}', f'{tag} row {r}: operator recovered from the basis is not diagonal in the frequency domain (max off-diagonal {off:.3e} > {tolT:.3e})'))
-        Hrec.append(Hd)
+    if full:
+        # the operator, recovered from the basis responses: M[:, k] = response to e_k (x row) ; y row: input CY*e_{k+1}
+        ops = [Os[:N, 0, :].T]
+        if pol == 2:
+            My = np.empty((N, N), complex)
+            for k in range(N):
+                My[:, (k + 1) % N] = Os[k, 1, :] / CY
+            ops.append(My)
+        for r, M in enumerate(ops):
+            T = np.fft.ifft(np.fft.fft(M, axis=0), axis=1)          # F M F^-1
+            Hd = np.diag(T).copy()
+            off = np.abs(T - np.diag(Hd)).max() if N > 1 else 0.0
+            if not off <= tolT:
+                viol.append((f'LTI:{name}:{cls}', f'{tag} row {r}: operator recovered from the basis is not diagonal in the frequency domain (max off-diagonal {off:.3e} > {tolT:.3e})'))
+            Hrec.append(Hd)
+    else:
+        # probe mode: the response applied to each row, read off the response to e_0 (x row) / CY*e_1 (y row); time invariance
+        # is probed by the other impulses through the filter oracle above
+        Hrec = [response_from_delta(Os[0, r, :], Xs[0, r, :]) for r in range(Xs.shape[1])]
     if pol == 2:
         dd = np.abs(Hrec[0] - Hrec[1]).max()
         if not dd <= 2 * tolT:
@@ -435,59 +531,55 @@ def case_basis(case):
         from opticomlib.devices import DM
         X0 = arrs[labels.index('rand')]
         ret = DM(mk(X0), dev[1], retH=True)
-        if not (isinstance(ret, tuple) and len(ret) == 2):
-            viol.append(('DM:retH:not-a-pair', f'{tag}: retH=True returned {type(ret).__name__}'))
-        else:
-            o2, Hret = ret
-            lv = layout_viol('DM', o2, X0)
-            if lv:
-                viol += [(k, f'{tag} retH=True: {m}') for k, m in lv]
-            elif not np.abs(o2.signal - outs[labels.index('rand')]).max() <= 2 * tol1 * float(norms(rows3(X0[None])).max()):
-                viol.append(('DM:retH:output-differs', f'{tag}: output with retH=True differs from the output with retH=False'))
-            Hret = np.asarray(Hret)
-            if Hret.shape not in ((N,), (2, N), (1, N)):
-                viol.append(('DM:retH:shape', f'{tag}: H has shape {Hret.shape} for input length {N}'))
-            else:
-                tolH = tolT + EPS * C_PH * th
-                for r, Hd in enumerate(Hrec):
-                    Hr = Hret if Hret.ndim == 1 else Hret[min(r, Hret.shape[0] - 1)]
-                    d_shift = np.abs(Hr - np.fft.fftshift(Hd)).max()
-                    d_plain = np.abs(Hr - Hd).max()
-                    nreth += 1
-                    if not min(d_shift, d_plain) <= tolH:
-                        viol.append((f'DM:retH:{cls}', f'{tag} row {r}: returned H differs from the filter recovered from the basis responses: '
-                                                       f'{d_shift:.3e} (fftshift order) / {d_plain:.3e} (fft order) > {tolH:.3e}'))
+        nreth = check_retH(tag, cls, ret, X0, outs[labels.index('rand')], Hrec, tol1, tolT + EPS * C_PH * th, viol)
 
-    # a field that carries noise: the signal part obeys the same oracle (or the total field does); noise: shape only
     Xn = rand_field(N, pol, seed, 1)
     Nn = rand_field(N, pol, seed, 2)
-    on = apply_dev(dev, mk(Xn, Nn))
-    lv = layout_viol(name, on, Xn)
-    if lv:
-        viol += [(k, f'{tag} noisy input: {m}') for k, m in lv]
-    else:
-        if on.noise is not None and np.shape(on.noise) != Xn.shape:
-            viol.append((f'noise-shape:{name}', f'{tag}: noise of shape {Xn.shape} came back with shape {np.shape(on.noise)}'))
-        v2 = []
-        check_filter(tag, cls, ['noisy(signal part)'], rows3(Xn[None]), rows3(on.signal[None]), fs, b2L, b3L, aL, 1, th, v2, name == 'DM')
-        if v2 and on.noise is not None and np.shape(on.noise) == Xn.shape:
-            v3 = []
-            check_filter(tag, cls, ['noisy(total field)'], rows3((Xn + Nn)[None]), rows3((on.signal + on.noise)[None]), fs, b2L, b3L, aL, 1, th, v3, name == 'DM')
-            if not v3:
-                v2 = []
-        viol += [(k.replace(':filter:', ':filter-noisy:'), m) for k, m in v2]
-        outs.append(on.signal)
+    on = noisy_check(tag, cls, name, dev, Xn, Nn, fs, b2L, b3L, aL, th, viol)
+    if on is not None:
+        outs.append(on)
 
     nontriv = (th > 0 or float(aL) > 0) and ('A', N, pol, fskey, dev)
     return res(viol=viol, obs=digest(outs), nontrivial=nontriv,
-               stats={'A.lib_calls': len(labels) + 1 + (name == 'DM'), 'A.basis_inputs': 2 * N, 'A.superposition_inputs': len(meta),
-                      'A.retH_rows_compared': nreth, 'A.operators_recovered': len(ops),
-                      'A.cases_fs_ne_sps*R': facts['fs_ne_sps*R'], 'A.cases_gv.N_in_force': facts['gv.N_in_force']},
+               stats={'A.lib_calls': len(labels) + 1 + (name == 'DM'), 'A.basis_inputs': 2 * nK, 'A.superposition_inputs': len(meta),
+                      'A.retH_rows_compared': nreth, 'A.operators_recovered': len(Hrec) if full else 0, 'A.responses_from_delta': 0 if full else len(Hrec),
+                      'A.cases_fs_ne_sps*R': facts['fs_ne_sps*R'], 'A.cases_gv.N_in_force': facts['gv.N_in_force'],
+                      'A.cases_extreme_parameters': int(dev in EXTREME_DEVS), 'A.cases_probe_mode': int(not full)},
                payload=worst)
 
 
+def check_retH(tag, cls, ret, X0, out_plain, Hrec, tol1, tolH, viol):
+    """retH=True: a pair (output, H); the output is the one of the plain call, H is the response actually applied (Hrec,
+    recovered from real responses) in fftshift order (what the code does) or fft order (the statement does not fix the order)"""
+    N = X0.shape[-1]
+    n = 0
+    if not (isinstance(ret, tuple) and len(ret) == 2):
+        viol.append(('DM:retH:not-a-pair', f'{tag}: retH=True returned {type(ret).__name__}'))
+        return n
+    o2, Hret = ret
+    lv = layout_viol('DM', o2, X0)
+    if lv:
+        viol += [(k, f'{tag} retH=True: {m}') for k, m in lv]
+    elif not np.abs(o2.signal - out_plain).max() <= 2 * tol1 * float(norms(rows3(np.asarray(X0).astype(complex)[None])).max()):
+        viol.append(('DM:retH:output-differs', f'{tag}: output with retH=True differs from the output with retH=False'))
+    Hret = np.asarray(Hret)
+    if Hret.shape not in ((N,), (2, N), (1, N)):
+        viol.append(('DM:retH:shape', f'{tag}: H has shape {Hret.shape} for input length {N}'))
+        return n
+    for r, Hd in enumerate(Hrec):
+        Hr = Hret if Hret.ndim == 1 else Hret[min(r, Hret.shape[0] - 1)]
+        d_shift = np.abs(Hr - np.fft.fftshift(Hd)).max()
+        d_plain = np.abs(Hr - Hd).max()
+        n += 1
+        if not min(d_shift, d_plain) <= tolH:
+            viol.append((f'DM:retH:{cls}', f'{tag} row {r}: returned H differs from the filter recovered from the real responses: '
+                                           f'{d_shift:.3e} (fftshift order) / {d_plain:.3e} (fft order) > {tolH:.3e}'))
+    return n
+
+
 # --------------------------------------------------------------------------- part B: algebraic laws (differential, real vs real)
-def laws():
+def laws(long=False):
+    """long: the thinned list used for lengths > N_LONG (every DM pair, every FIBER==DM, every fibre with 2 of the 9 length pairs, the extremes)"""
     out = []
     for D1 in D_VALUES:
         for D2 in D_VALUES:
@@ -498,8 +590,18 @@ def laws():
     for a, b2, b3 in itertools.product(F_ALPHA, F_B2, F_B3):
         for L1 in F_L:
             for L2 in F_L:
-                out.append(('two-spans', a, b2, b3, L1, L2))
-    return out
+                if not long or (L1, L2) in ((F_L[0], F_L[1]), (F_L[2], F_L[2])):
+                    out.append(('two-spans', a, b2, b3, L1, L2))
+    return out + EXTREME_LAWS
+
+
+# the same laws at extreme-but-legal parameter values (huge / tiny D, 1 micrometre ... 100 000 km; two-spans beyond 60 dB is real vs real)
+EXTREME_LAWS = [
+    ('dm-pair', 1e6, -1e6), ('dm-pair', -1e6, 1e6), ('dm-pair', 1e-3, -1e-3), ('dm-pair', 1e6, 1e-3), ('dm-pair', -4000, 1e6),
+    ('fiber-dm', 1e-6, 25), ('fiber-dm', 1e-9, -7), ('fiber-dm', 1e4, -25), ('fiber-dm', 1e5, 7),
+    ('two-spans', 0.005, -25, 0.2, 1e-6, 1e4), ('two-spans', 0.005, -25, 0.2, 1e4, 1e-6), ('two-spans', 0.005, 25, -0.2, 1e4, 1e4),
+    ('two-spans', 0.2, 0, 0, 1e-9, 50), ('two-spans', 0, 0, -0.2, 1e5, 1e5), ('two-spans', 100, 0, 0, 0.5, 0.5), ('two-spans', 0, 7, 0, 1e-9, 1e-6),
+]
 
 
 def case_laws(case):
@@ -552,13 +654,13 @@ def case_laws(case):
             return res(viol=[(k, f'{what} input {lab}: {m}') for k, m in lv], obs=('LAYOUT', lv[0][0]))
     A = rows3(np.array([o.signal for o in lhs]))
     B = rows3(np.array([o.signal for o in rhs]))
-    tolfac = C_FFT * nst + C_PH * th + 4
+    tolfac = cfft(N) * nst + C_PH * th + 4
     bad, worst, err, tol = compare(A, B, nrm, tolfac)
     if bad is not None:
         i, r = bad
         viol.append((key, f'{what}: input {labels[i]} row {r}, N={N}, fs={fs:g}: fields differ by {err:.3e} > tol {tol:.3e}'))
     if key == 'DM:inverse':
-        bad, w2, err, tol = compare(A, Xs, nrm, C_FFT * 2 + C_PH * th)
+        bad, w2, err, tol = compare(A, Xs, nrm, cfft(N) * 2 + C_PH * th)
         worst = max(worst, w2)
         if bad is not None:
             i, r = bad
@@ -568,7 +670,7 @@ def case_laws(case):
         Eout = (np.abs(A) ** 2).sum(axis=-1)
         live = Ein > 0
         rel = np.where(live, np.abs(Eout / np.where(live, Ein, 1) - 1), Eout)
-        if not np.all(rel <= 2 * ENERGY_REL):
+        if not np.all(rel <= 2 * ENERGY_REL * cfft(N) / C_FFT):
             viol.append(('DM:energy:chain', f'{what}: energy of the chained output deviates by {float(np.nanmax(rel)):.3e}'))
     return res(viol=viol, obs=digest([o.signal for o in lhs] + [o.signal for o in rhs]),
                nontrivial=nontriv and ('B', N, pol, fskey, law),
@@ -654,7 +756,7 @@ def case_seq(case):
     if E.shape != R.shape:
         viol.append(('layout:seq:shape', f'equivalent span FIBER({pe}) returned shape {E.shape[1:]}'))
     else:
-        bad, w2, err, tol = compare(R, E, nrm, C_FFT * (nst + 1) + C_PH * (th + the) + 4)
+        bad, w2, err, tol = compare(R, E, nrm, cfft(N) * (nst + 1) + C_PH * (th + the) + 4)
         worst = max(worst, w2)
         if bad is not None:
             i, r = bad
@@ -665,7 +767,7 @@ def case_seq(case):
         ncalls += len(arrs)
         Ed = rows3(np.array(eqd))
         if Ed.shape == R.shape:
-            bad, w2, err, tol = compare(R, Ed, nrm, C_FFT * (nst + 1) + C_PH * (th + the))
+            bad, w2, err, tol = compare(R, Ed, nrm, cfft(N) * (nst + 1) + C_PH * (th + the))
             worst = max(worst, w2)
             if bad is not None:
                 i, r = bad
@@ -680,7 +782,7 @@ def case_seq(case):
             P = rows3(np.array([run_chain(rep, X).signal for X in arrs]))
             ncalls += len(arrs) * len(rep)
         if P.shape == R.shape:
-            bad, w2, err, tol = compare(R, P, nrm, C_FFT * (nst + nr) + C_PH * (th + thr) + 4)
+            bad, w2, err, tol = compare(R, P, nrm, cfft(N) * (nst + nr) + C_PH * (th + thr) + 4)
             worst = max(worst, w2)
             if bad is not None:
                 i, r = bad
@@ -693,10 +795,398 @@ def case_seq(case):
                payload=worst)
 
 
+# --------------------------------------------------------------------------- part D: call forms, dtypes, scales, reuse (deviation lattice)
+# base devices: integer-valued parameters that fit every scalar type (int8 included), one of each filter class
+FORM_DEVS = [('DM', 100), ('DM', -17), ('FIBER', 3, 1, -25, 2), ('FIBER', 3, 1, 0, 0), ('FIBER', 2, 0, 0, -2)]
+
+SCALAR_FORMS = {
+    'int': int, 'float': float, 'np.int8': np.int8, 'np.int32': np.int32, 'np.int64': np.int64,
+    'np.float16': np.float16, 'np.float32': np.float32, 'np.float64': np.float64,
+    '0d-float': lambda v: np.array(float(v)), '0d-int': lambda v: np.array(int(v)),
+}
+GAMMA_FORMS = {'int0': lambda: 0, 'float0': lambda: 0.0, '-0.0': lambda: -0.0, 'np.float64(0)': lambda: np.float64(0), 'np.int64(0)': lambda: np.int64(0),
+               'False': lambda: False, '0d-float0': lambda: np.array(0.0)}
+DTYPES = ['bool', 'int8', 'uint8', 'int16', 'int32', 'int64', 'float16', 'float32', 'float64', 'complex64', 'complex128']
+CONTAINERS = ['list', 'tuple', 'str', 'int-valued-float64', 'int-valued-complex128']
+SCALES = [1e-100, 1e-12, 1e-9, 1e-6, 1e6, 1e100]
+NOISES = ['zeros', 'real-float', 'int', 'zero-sum', 'x-only', 'y-only']
+FS_OTHER = {'160G': 'R+fs:25G/10G', 'R+fs:25G/10G': '160G', '16G': '320G', '320G': 'fs:24.5G', 'fs:24.5G': '16G'}     # the configuration a 'reconf' case switches to and back from
+
+
+def int_field(N, pol, kind):
+    """small integer-valued field that every dtype of `kind` holds exactly; never all-zero; rows differ"""
+    k = np.arange(N)
+    if kind == 'bool':
+        x, y = (k % 3 != 1), (k % 2 == 0)
+    elif kind.startswith('uint'):
+        x, y = (3 * k + 1) % 5, (2 * k + 3) % 7
+    else:
+        x, y = (3 * k + 1) % 5 - 2 + (k == 0) * 3, (2 * k + 3) % 7 - 3
+    x, y = np.asarray(x), np.asarray(y)
+    if kind.startswith('complex'):
+        x, y = x + 1j * ((2 * k) % 3 - 1), y - 1j * ((k + 1) % 4)
+    return x if pol == 1 else np.array([x, y])
+
+
+def to_str(X):
+    """the library's own string spelling: values separated by ',' rows by ';' (integers / booleans)"""
+    rows = [X] if X.ndim == 1 else list(X)
+    return ';'.join(','.join(str(int(v)) for v in r) for r in rows)
+
+
+def forms():
+    """the deviation lattice of part D (simplest first); every entry is (kind, device index, ...)"""
+    out = []
+    nd = len(FORM_DEVS)
+    for di in range(nd):
+        for dt in DTYPES + CONTAINERS:
+            out.append(('dtype', di, dt))
+    for di, dev in enumerate(FORM_DEVS):
+        if dev[0] == 'DM':
+            for f in SCALAR_FORMS:
+                for reth in ('plain', 'retH=True', 'retH=1 positional', 'D= keyword'):
+                    out.append(('spell', di, 'D', f, reth))
+        else:
+            for f in SCALAR_FORMS:
+                for arg in ('length', 'alpha', 'beta_2', 'beta_3', 'all'):
+                    out.append(('spell', di, arg, f, 'keyword'))
+                out.append(('spell', di, 'all', f, 'positional'))
+            for g in GAMMA_FORMS:
+                out.append(('gamma', di, g))
+            for opt in ('phi_max=1e-9', 'phi_max=10', 'show_progress', 'show_progress+int', 'show_progress positional'):
+                out.append(('option', di, opt))
+    for di in range(nd):
+        for sc in SCALES:
+            out.append(('scale', di, sc))
+        out.append(('scale', di, 'dc+small'))
+        out.append(('scale', di, 'j*dc+small'))
+    for di in range(nd):
+        for nz in NOISES:
+            out.append(('noise', di, nz))
+    for di in range(nd):
+        out.append(('twice', di))
+        out.append(('reconf', di))
+    out += [('sweep', 'DM:D'), ('sweep', 'FIBER:length'), ('sweep', 'FIBER:beta_3'), ('sweep', 'FIBER:alpha'), ('sweep', 'mixed')]
+    return out
+
+
+def form_grids(tier):
+    if tier == 'thorough':
+        Ns = sorted(set(N_FULL_QUICK + N_FULL_THOROUGH + N_PROBE_QUICK + N_PROBE_THOROUGH))
+        return [(N, pol, f) for N in Ns for pol in (1, 2) for f in ('16G', '160G', '320G', 'R+fs:25G/10G', 'fs:24.5G') if N <= N_LONG or (pol == 2 and f in ('160G', 'R+fs:25G/10G'))]
+    return [(N, pol, f) for N in (1, 2, 3, 13, 64) for pol in (1, 2) for f in ('160G', 'R+fs:25G/10G')] + [(4097, 2, '160G'), (8192, 2, 'R+fs:25G/10G')]
+
+
+def quiet(f):
+    """run f() with stderr captured (tqdm progress bars)"""
+    import contextlib
+    import io
+    with contextlib.redirect_stderr(io.StringIO()):
+        return f()
+
+
+def clause(k):
+    """'DM:filter:D>0' -> 'filter' (inside part D the device and its class are already named by the form)"""
+    p = k.split(':')
+    return p[1] if p[0] in ('DM', 'FIBER') and len(p) > 1 else k
+
+
+def pvalue(v):
+    """the number a scalar-like argument stands for (read BEFORE the call: a 0-d array may be written to by the callee)"""
+    return float(np.asarray(v).real)
+
+
+def case_forms(case):
+    (N, pol, fskey), form, seed = case
+    from opticomlib.devices import DM, FIBER
+    from opticomlib.typing import optical_signal
+    from mcx.core.env import freeze, unchanged
+    fs = setup(fskey)
+    kind = form[0]
+    viol, obs, ncalls = [], [], 0
+    worst = 0.0
+    base = [rand_field(N, pol, seed, 0), basis_input(N, pol, 1, 1.0)] + ([np.array([unit(N, 1), np.zeros(N, complex)])] if pol == 2 else [])
+    blab = ['rand', 'e1'] + (['x-only'] if pol == 2 else [])
+
+    def judge(tagk, what, dev, labels, Xs_list, outs_list, stages=1):
+        """layout + filter oracle of `dev` (numbers as given to the library) on a list of inputs; keys get the prefix form:<tagk>:"""
+        nonlocal worst
+        for lab, X, o in zip(labels, Xs_list, outs_list):
+            lv = layout_viol(dev[0], o, np.asarray(X))
+            if lv:
+                viol.extend((f'form:{tagk}:{k}', f'{what} input {lab}: {m}') for k, m in lv)
+                return False
+            if not np.iscomplexobj(o.signal):
+                viol.append((f'form:{tagk}:output-not-complex', f'{what} input {lab}: output field has dtype {o.signal.dtype}'))
+                return False
+        b2L, b3L, aL = dev_triple(dev)
+        th = theta_max(fs, b2L, b3L)
+        v = []
+        Xs = rows3(np.array([np.asarray(X).astype(complex) for X in Xs_list]))
+        Os = rows3(np.array([o.signal for o in outs_list]))
+        w = check_filter(f'{dev[0]} {dev[1:]}', dev_class(dev), labels, Xs, Os, fs, b2L, b3L, aL, stages, th, v, dev[0] == 'DM')
+        worst = max(worst, w)
+        viol.extend((f'form:{tagk}:{clause(k)}', f'{what}: {m}') for k, m in v)
+        obs.extend(o.signal for o in outs_list)
+        return not v
+
+    def attempt(tagk, what, f):
+        """call the library; an exception on a legal spelling is reported under the form's own key"""
+        nonlocal ncalls
+        ncalls += 1
+        try:
+            return f()
+        except Exception as e:                                   # noqa: BLE001 - every exception type is a finding here
+            import traceback
+            from mcx.core.kernel import Horizon
+            if isinstance(e, Horizon):
+                raise
+            where = [fr for fr in traceback.extract_tb(e.__traceback__) if '/opticomlib/' in fr.filename]
+            loc = f'{where[-1].filename.split("/")[-1]}:{where[-1].name}' if where else 'harness'
+            if not where:
+                raise
+            viol.append((f'form:{tagk}:raises:{type(e).__name__}', f'{what} raised {type(e).__name__}: {str(e)[:200]} (in {loc})'))
+            obs.append(('RAISES', type(e).__name__))
+            return None
+
+    if kind == 'dtype':
+        _, di, dt = form
+        dev = FORM_DEVS[di]
+        what = f'{dev[0]}{dev[1:]} on a field given as {dt}'
+        if dt in DTYPES:
+            X = int_field(N, pol, dt).astype(dt)
+            given = X
+        elif dt == 'int-valued-float64':
+            X = int_field(N, pol, 'int').astype(float)
+            given = X
+        elif dt == 'int-valued-complex128':
+            X = int_field(N, pol, 'complex').astype(complex)
+            given = X
+        else:
+            X = int_field(N, pol, 'int')
+            given = X.tolist() if dt == 'list' else (tuple(map(tuple, X)) if X.ndim == 2 else tuple(X.tolist())) if dt == 'tuple' else to_str(X)
+        sig = optical_signal(given)
+        if sig.signal.shape != X.shape or not np.array_equal(sig.signal, X):
+            # the constructor is not C07's subject: the oracle follows the field the library object actually holds
+            X = np.array(sig.signal)
+        snap = freeze(sig)
+        o = attempt(f'dtype:{dt}', what, lambda: apply_dev(dev, sig))
+        if o is not None:
+            ok = judge(f'dtype:{dt}', what, dev, [dt], [X], [o])
+            if not unchanged(sig, snap):
+                viol.append((f'form:dtype:{dt}:input-changed', f'{what}: the input object was written to'))
+            # the same field with noise of the same (integer) dtype and with float noise: signal part still the complex filtered field
+            for nlab, Nn in (('same-dtype', np.ones_like(X)), ('float', np.full(X.shape, 0.5))):
+                if ok:
+                    v = []
+                    b2L, b3L, aL = dev_triple(dev)
+                    noisy_check(f'{dev[0]} {dev[1:]}', dev_class(dev), dev[0], dev, X, Nn, fs, b2L, b3L, aL, theta_max(fs, b2L, b3L), v)
+                    ncalls += 1
+                    viol.extend((f'form:dtype:{dt}:noise-{nlab}:{clause(k)}', f'{what} with {nlab} noise: {m}') for k, m in v)
+            if dev[0] == 'DM':
+                ret = attempt(f'dtype:{dt}:retH', what + ' retH=True', lambda: DM(optical_signal(given), dev[1], retH=True))
+                if ret is not None and isinstance(ret, tuple) and len(ret) == 2:
+                    judge(f'dtype:{dt}:retH', what + ' retH=True', dev, [dt], [X], [ret[0]])
+
+    elif kind == 'spell':
+        _, di, arg, fname, style = form
+        dev = FORM_DEVS[di]
+        F = SCALAR_FORMS[fname]
+        if dev[0] == 'DM':
+            what = f'DM(D={fname}({dev[1]}), {style})'
+            outs = []
+            for X in base:
+                Dv = F(dev[1])
+                if style == 'plain':
+                    o = attempt(f'DM:D={fname}', what, lambda: DM(mk(X), Dv))
+                elif style == 'D= keyword':
+                    o = attempt(f'DM:D={fname}', what, lambda: DM(input=mk(X), D=Dv))
+                else:
+                    ret = attempt(f'DM:D={fname}', what, (lambda: DM(mk(X), Dv, retH=True)) if style == 'retH=True' else (lambda: DM(mk(X), Dv, 1)))
+                    if ret is None:
+                        o = None
+                    elif not (isinstance(ret, tuple) and len(ret) == 2):
+                        viol.append(('DM:retH:not-a-pair', f'{what}: returned {type(ret).__name__}'))
+                        o = None
+                    else:
+                        o = ret[0]
+                        # H against the response read off the output to an impulse (second input of `base`)
+                        if X is base[1]:
+                            Xr = rows3(np.asarray(X)[None])[0]
+                            lv = layout_viol('DM', o, X)
+                            if not lv:
+                                Or = rows3(o.signal[None])[0]
+                                Hrec = [response_from_delta(Or[r], Xr[r]) for r in range(Xr.shape[0])]
+                                th = theta_max(fs, dev[1], 0)
+                                tol1 = EPS * (cfft(N) + C_PH * th + 4)
+                                check_retH(what, dev_class(dev), ret, X, o.signal, Hrec, tol1, 2 * math.sqrt(N) * tol1 + EPS * cfft(N) + EPS * C_PH * th, viol)
+                if o is None:
+                    break
+                outs.append(o)
+            if len(outs) == len(base):
+                judge(f'DM:D={fname}', what, dev, blab, base, outs)
+        else:
+            names = ('length', 'alpha', 'beta_2', 'beta_3')
+            vals = dict(zip(names, dev[1:]))
+            what = f'FIBER{dev[1:]} with {arg} given as {fname}, {style}'
+            outs = []
+            for X in base:
+                kw = {n: (F(v) if arg in (n, 'all') else float(v)) for n, v in vals.items()}
+                if style == 'positional':
+                    o = attempt(f'FIBER:{arg}={fname}', what, lambda: FIBER(mk(X), kw['length'], kw['alpha'], kw['beta_2'], kw['beta_3'], 0))
+                else:
+                    o = attempt(f'FIBER:{arg}={fname}', what, lambda: FIBER(mk(X), **kw))
+                if o is None:
+                    break
+                outs.append(o)
+            if len(outs) == len(base):
+                judge(f'FIBER:{arg}={fname}', what, dev, blab, base, outs)
+
+    elif kind == 'gamma':
+        _, di, g = form
+        dev = FORM_DEVS[di]
+        _, L, a, b2, b3 = dev
+        what = f'FIBER{dev[1:]} with gamma given as {g}'
+        outs = [attempt(f'FIBER:gamma={g}', what, lambda: FIBER(mk(X), length=L, alpha=a, beta_2=b2, beta_3=b3, gamma=GAMMA_FORMS[g]())) for X in base]
+        if all(o is not None for o in outs):
+            judge(f'FIBER:gamma={g}', what, dev, blab, base, outs)
+
+    elif kind == 'option':
+        _, di, opt = form
+        dev = FORM_DEVS[di]
+        _, L, a, b2, b3 = dev
+        what = f'FIBER{dev[1:]} with {opt}'
+        call = {
+            'phi_max=1e-9': lambda X: FIBER(mk(X), L, a, b2, b3, phi_max=1e-9),
+            'phi_max=10': lambda X: FIBER(mk(X), L, a, b2, b3, 0.0, 10),
+            'show_progress': lambda X: quiet(lambda: FIBER(mk(X), length=L, alpha=a, beta_2=b2, beta_3=b3, show_progress=True)),
+            'show_progress+int': lambda X: quiet(lambda: FIBER(mk(X), length=int(L), alpha=int(a), beta_2=int(b2), beta_3=int(b3), gamma=0, show_progress=True)),
+            'show_progress positional': lambda X: quiet(lambda: FIBER(mk(X), L, a, b2, b3, 0, 0.05, True)),
+        }[opt]
+        outs = [attempt(f'FIBER:{opt}', what, lambda: call(X)) for X in base]
+        if all(o is not None for o in outs):
+            judge(f'FIBER:{opt}', what, dev, blab, base, outs)
+
+    elif kind == 'scale':
+        _, di, sc = form
+        dev = FORM_DEVS[di]
+        if sc == 'dc+small':
+            ins = [1e6 + 1e-3 * X for X in base]
+        elif sc == 'j*dc+small':
+            ins = [-1e6j + 1e-6 * X for X in base]
+        else:
+            ins = [sc * X for X in base]
+        what = f'{dev[0]}{dev[1:]} on inputs scaled by {sc}'
+        outs = [attempt(f'scale:{sc}', what, lambda: apply_dev(dev, mk(X))) for X in ins]
+        if all(o is not None for o in outs):
+            judge(f'scale:{sc}', what, dev, blab, ins, outs)
+
+    elif kind == 'noise':
+        _, di, nz = form
+        dev = FORM_DEVS[di]
+        X = base[0]
+        R = rand_field(N, pol, seed, 2)
+        if nz == 'zeros':
+            Nn = np.zeros(X.shape, complex)
+        elif nz == 'real-float':
+            Nn = R.real.copy()
+        elif nz == 'int':
+            Nn = np.rint(3 * R.real).astype(np.int64)
+        elif nz == 'zero-sum':
+            Nn = R - R.mean(axis=-1, keepdims=True)
+        elif pol == 2:
+            Nn = R.copy()
+            Nn[1 if nz == 'x-only' else 0] = 0
+        else:
+            Nn = R * (1 if nz == 'x-only' else 1j)
+        what = f'{dev[0]}{dev[1:]} on a field with {nz} noise'
+        b2L, b3L, aL = dev_triple(dev)
+        th = theta_max(fs, b2L, b3L)
+        v = []
+        o = attempt(f'noise:{nz}', what, lambda: noisy_check(f'{dev[0]} {dev[1:]}', dev_class(dev), dev[0], dev, X, Nn, fs, b2L, b3L, aL, th, v))
+        viol.extend((f'form:noise:{nz}:{clause(k)}', f'{what}: {m}') for k, m in v)
+        if o is not None:
+            obs.append(o)
+        if dev[0] == 'DM':
+            v = []
+            hold = {}
+
+            def call(sig):
+                hold['ret'] = DM(sig, dev[1], retH=True)
+                return hold['ret'][0] if isinstance(hold['ret'], tuple) else hold['ret']
+            o2 = attempt(f'noise:{nz}:retH', what + ' retH=True', lambda: noisy_check(f'DM {dev[1:]}', dev_class(dev), 'DM', dev, X, Nn, fs, b2L, b3L, aL, th, v, call=call))
+            viol.extend((f'form:noise:{nz}:retH:{clause(k)}', f'{what} retH=True: {m}') for k, m in v)
+            if o2 is not None and isinstance(hold.get('ret'), tuple) and np.shape(hold['ret'][1])[-1:] != (N,):
+                viol.append(('DM:retH:shape', f'{what}: H has shape {np.shape(hold["ret"][1])} for input length {N}'))
+
+    elif kind == 'twice':
+        # the same input object AND the same argument objects used for two calls; each call must be the filter of the numbers given
+        _, di = form
+        dev = FORM_DEVS[di]
+        for fname in ('float', 'np.float64', '0d-float'):
+            F = SCALAR_FORMS[fname]
+            what = f'{dev[0]}{dev[1:]} called twice with the same input object and the same {fname} argument objects'
+            for X, lab in zip(base, blab):
+                sig = mk(X)
+                snap = freeze(sig)
+                args = [F(v) for v in dev[1:]]
+                want = ('DM', pvalue(args[0])) if dev[0] == 'DM' else ('FIBER',) + tuple(pvalue(a) for a in args)
+                for n in (1, 2):
+                    o = attempt(f'reuse:{dev[0]}:{fname}', what, (lambda: DM(sig, args[0])) if dev[0] == 'DM' else (lambda: FIBER(sig, *args)))
+                    if o is None or not judge(f'reuse:{dev[0]}:{fname}:call{n}', what + f', call {n}', want, [lab], [X], [o]):
+                        break
+                if not unchanged(sig, snap):
+                    viol.append((f'form:reuse:{dev[0]}:input-changed', f'{what}: the input object was written to'))
+
+    elif kind == 'reconf':
+        # the same call (same length, same parameters, same input) before and after gv was reconfigured, and back
+        _, di = form
+        dev = FORM_DEVS[di]
+        other = FS_OTHER.get(fskey, '160G' if fskey != '160G' else '16G')
+        for step, key in enumerate((fskey, other, fskey, other)):
+            fs = setup(key)
+            what = f'{dev[0]}{dev[1:]} at step {step} of the gv history {fskey} -> {other} -> {fskey} -> {other} (gv.fs = {fs:g})'
+            outs = [attempt('reconf', what, lambda: apply_dev(dev, mk(X))) for X in base]
+            if all(o is not None for o in outs):
+                judge(f'reconf:step{step}', what, dev, blab, base, outs)
+            if dev[0] == 'DM':
+                ret = attempt('reconf:retH', what, lambda: DM(mk(base[1]), dev[1], retH=True))
+                if isinstance(ret, tuple) and len(ret) == 2 and not layout_viol('DM', ret[0], base[1]):
+                    Xr, Or = rows3(base[1][None])[0], rows3(ret[0].signal[None])[0]
+                    th = theta_max(fs, dev[1], 0)
+                    tol1 = EPS * (cfft(N) + C_PH * th + 4)
+                    check_retH(what, dev_class(dev), ret, base[1], ret[0].signal, [response_from_delta(Or[r], Xr[r]) for r in range(Xr.shape[0])],
+                               tol1, 2 * math.sqrt(N) * tol1 + EPS * cfft(N) + EPS * C_PH * th, viol)
+
+    elif kind == 'sweep':
+        # a sweep over one parameter on ONE shared, write-protected input object; every point against the oracle on the original field
+        _, which = form
+        X = base[0]
+        sig = mk(X)
+        snap = freeze(sig)
+        pts = {'DM:D': [('DM', D) for D in D_VALUES],
+               'FIBER:length': [('FIBER', L, 0.005, -25, 0.2) for L in (1e-6, 0.5, 3, 50, 1e4)],
+               'FIBER:beta_3': [('FIBER', 3, 0, 0, b3) for b3 in (-2, -0.2, 0, 0.2, 2)],
+               'FIBER:alpha': [('FIBER', 50, a, 0, 0) for a in (0, 1e-9, 0.2, 0.5, 1)],
+               'mixed': [FORM_DEVS[i] for i in (0, 2, 1, 3, 4, 0)]}[which]
+        for i, dev in enumerate(pts):
+            what = f'sweep {which}, point {i} = {dev[0]}{dev[1:]} on one shared input object'
+            o = attempt(f'sweep:{which}', what, lambda: apply_dev(dev, sig))
+            if o is None or not judge(f'sweep:{which}', what, dev, ['rand'], [X], [o]):
+                break
+        if not unchanged(sig, snap):
+            viol.append((f'form:sweep:{which}:input-changed', f'sweep {which}: the shared input object was written to'))
+    else:
+        raise AssertionError(form)
+
+    return res(viol=viol, obs=digest([np.frombuffer(repr(o).encode(), np.uint8) if isinstance(o, tuple) else np.asarray(o) for o in obs]),
+               nontrivial=('D', N, pol, fskey, form), stats={'D.lib_calls': ncalls, f'D.cases_{kind}': 1}, payload=worst)
+
+
 # --------------------------------------------------------------------------- driver
 def self_check():
     """the extended-precision grid of the reference is the DESIGN formula w = 2*pi*fftfreq(N)*fs"""
-    for N in (1, 2, 3, 16, 17, 64, 65, 129):
+    for N in (1, 2, 3, 13, 16, 17, 64, 65, 97, 129, 206, 4097, 8192):
         for fs in sorted(set(c[1] for c in FSCONF.values())):
             w = 2 * np.pi * np.fft.fftfreq(N) * fs
             wp = (grid_wp(N, fs) * LD(10 ** 12)).astype(float)
@@ -708,7 +1198,12 @@ def self_check():
     assert any(c[1] > c[2] for c in FSCONF.values()) and any(c[1] < c[2] for c in FSCONF.values())
     forms = {tuple(sorted(k for k in kw if k in ('sps', 'R', 'fs'))) for c in FSCONF.values() for kw in c[0]}
     assert forms == {('R', 'sps'), ('fs', 'sps'), ('R', 'fs'), ('fs',), ('sps',)}, forms
-    assert set(N_FORMS_QUICK) <= {1, 2, 3, 16, 17, 64, 65}
+    assert set(N_FORMS_QUICK) <= set(N_FULL_QUICK)
+    # lengths: non-smooth (a prime factor > 11) and > 4096 are present in the quick tier; thorough is a superset
+    pf = lambda n: max(p for p in range(2, n + 1) if n % p == 0 and all(p % q for q in range(2, int(p ** 0.5) + 1)))
+    assert sum(1 for n in N_FULL_QUICK + N_PROBE_QUICK if n > 1 and pf(n) > 11) >= 5 and max(N_PROBE_QUICK) > 4096
+    assert set(g for g in grids('quick')) <= set(grids('thorough')) and set(form_grids('quick')) <= set(form_grids('thorough'))
+    assert max(float(dev_triple(d)[2]) for d in EXTREME_DEVS + FORM_DEVS) <= 60.0
 
 
 def gv_table(keys):
@@ -730,18 +1225,30 @@ def run(ctx):
     devs = devices()
     depth = 2 if ctx.quick else 3
     seed = ctx.seed
+    fullN = set(full_lengths(tier))
+    GD = form_grids(tier)
+    FM = forms()
     ctx.space('grids(N,layout,fs)', len(G))
-    ctx.space('devices(7 DM + 135 FIBER)', len(devs))
+    ctx.space(f'devices(7 DM + 135 FIBER + {len(EXTREME_DEVS)} extreme)', len(devs))
     fkeys = sorted(set(g[2] for g in G), key=list(FSCONF).index)
     nform = sorted(set(g[0] for g in G if g[2] in FS_FORMS))
     ctx.rule(f'gv configurations = call histories after clean(): sps+R {[k for k in fkeys if k not in FS_FORMS]} on every N; the other call forms and two-call '
              f'histories {[k for k in fkeys if k in FS_FORMS]} on N in {nform}; {sum(1 for k in fkeys if FSCONF[k][1] != FSCONF[k][2])} of them leave gv.fs != gv.sps*gv.R '
              f'(non-integer fs/R, rounded down/up/half-even), 2 leave a gv.w of another length in force; every oracle uses gv.fs')
+    ctx.rule(f'lengths: operator recovered from the FULL basis for N in {sorted(fullN)}; probe mode (e_k, j*e_k for k in 0, 1, N/2, N-1, ones, random, one-sided; '
+             f'response read off the impulse response) for N in {sorted(set(g[0] for g in G) - fullN)}')
     ctx.rule(f'A: every grid (N in {sorted(set(g[0] for g in G))} x 1/2 pol x gv.fs in {sorted(set(FSCONF[g[2]][1] for g in G))}) x every device '
-             f'(D in {D_VALUES} ps^2; FIBER L{F_L} x alpha{F_ALPHA} x beta2{F_B2} x beta3{F_B3}, gamma=0) on the full basis e_k, j*e_k (2N inputs), ones, seeded random, '
+             f'(D in {D_VALUES} ps^2; FIBER L{F_L} x alpha{F_ALPHA} x beta2{F_B2} x beta3{F_B3}, gamma=0; plus {len(EXTREME_DEVS)} extreme points: |D| 1e-3 / 1e6 ps^2, L 1e-9 ... 1e5 km, alpha 1e-9 ... 100 dB/km, alpha*L <= 50 dB) on the full basis e_k, j*e_k (2N inputs), ones, seeded random, '
              f'one-sided 2-pol, a noisy field, and for N=16 all 480 superpositions a*e_i+b*e_j; operator recovered from the basis and compared with retH')
     ctx.rule('B: DM(D1)oDM(D2)==DM(D1+D2) for all 49 ordered pairs (7 of them inverses), FIBER(L,b2)==DM(b2*L) for 15 (L,b2), '
-             'FIBER(L2)oFIBER(L1)==FIBER(L1+L2) for 45 fibres x 9 length pairs, on every grid (full basis for N<=17, 6 fields otherwise)')
+             'FIBER(L2)oFIBER(L1)==FIBER(L1+L2) for 45 fibres x 9 length pairs, on every grid (full basis for N<=17, 6 fields otherwise; '
+             f'N > {N_LONG}: 2 of the 9 length pairs and gv.fs in {FS_LONG_THOROUGH if tier == "thorough" else FS_LONG_QUICK} only); '
+             f'plus {len(EXTREME_LAWS)} of the same laws at extreme parameter values')
+    ctx.rule(f'D: deviation lattice of {len(FM)} call forms around {len(FORM_DEVS)} base devices on {len(GD)} grids (N in {sorted(set(g[0] for g in GD))} x 1/2 pol x '
+             f'{sorted(set(g[2] for g in GD), key=list(FSCONF).index)}): input dtypes {DTYPES} and containers {CONTAINERS} (with integer / float noise, retH); every scalar spelling '
+             f'{list(SCALAR_FORMS)} of D / length / alpha / beta_2 / beta_3 one at a time and all at once, keyword and positional, retH=True / 1; gamma as {list(GAMMA_FORMS)}; '
+             f'phi_max, show_progress; amplitude scales {SCALES} and DC offsets; noise layouts {NOISES}; same input and argument objects used twice; gv reconfigured between '
+             f'identical calls; parameter sweeps on one write-protected input object')
     ctx.rule(f'C: explicit-state search over ALL span sequences of depth <= {depth} over a 6-span alphabet (2 DM, 4 FIBER) on every grid; model state = exact rational '
              f'(sum b2*L, sum b3*L, sum alpha*L); every transition executed on the real devices by chaining output objects; reached field compared with the model filter, '
              f'the single equivalent span, and the first history of the same model state')
@@ -760,13 +1267,19 @@ def run(ctx):
             worst[part] = max(worst.get(part, 0.0), max(vals))
 
     # ---- A
-    cases = [(g, d, seed) for g in G for d in devs]
+    cases = [(g, d, seed, g[0] in fullN) for g in G for d in devs]
     absorb('A', ctx.pmap('A.basis', case_basis, cases, horizon=HORIZON))
     # ---- B
     LW = laws()
     ctx.space('laws', len(LW))
-    cases = [(g, l, seed) for g in G for l in LW]
+    LWlong = laws(long=True)
+    assert set(LWlong) <= set(LW)
+    cases = [(g, l, seed) for g in G for l in (LW if g[0] <= N_LONG else LWlong)]
     absorb('B', ctx.pmap('B.laws', case_laws, cases, horizon=HORIZON))
+    # ---- D
+    ctx.space('forms', len(FM))
+    cases = [(g, f, seed) for g in GD for f in FM]
+    absorb('D', ctx.pmap('D.forms', case_forms, cases, horizon=HORIZON))
     # ---- C: BFS by depth over the trace tree, merging on the model state
     root_key, _ = model_state(())
     seen = {root_key: ()}
